@@ -771,3 +771,17 @@ func (p *C12Proxy) Close() {
 	p.SetDown(true)
 	p.ln.Close()
 }
+
+// C12TTLSensitive: commands after which the key's value AND time to live are compared between the twins.
+var C12TTLSensitive = map[string]bool{"SetNXCtx": true, "SetNXExCtx": true, "SetExCtx": true, "ExpireCtx": true,
+	"ExpireAtCtx": true, "PersistCtx": true, "SetCtx": true, "GetSetCtx": true}
+
+// C12KeyState renders key k as held by the first of the servers that has it (type, content, ttl), "absent" if none.
+func C12KeyState(k string, servers ...*miniredis.Miniredis) string {
+	for _, s := range servers {
+		if s.Exists(k) {
+			return C12DumpKey(s, k)
+		}
+	}
+	return "absent"
+}
